@@ -56,6 +56,9 @@ type BscGen struct {
 	lastSwitch uint64 // block at which the set in force last changed
 	heights  []uint64
 	name     string
+	viaTx    bool // deliver updates as signed MsgUpdateClient transactions (determinism stream)
+	curLen   int  // length of the stored validator list (duplicates included): decides the switch block
+	pendLen  int
 }
 
 func (g *BscGen) initUniverse(n int) {
@@ -136,6 +139,17 @@ func (g *BscGen) setFor(number uint64) []int {
 		return g.pend
 	}
 	return g.cur
+}
+
+func dedupSorted(xs []int) []int {
+	out := []int{}
+	for _, x := range xs {
+		if !containsInt(out, x) {
+			out = append(out, x)
+		}
+	}
+	sort.Ints(out)
+	return out
 }
 
 func containsInt(s []int, x int) bool {
@@ -317,14 +331,27 @@ func (g *BscGen) submit(c *tibctesting.TestChain, h bsctypes.Header, expect int,
 	ctx := c.GetContext().WithBlockTime(time.Unix(int64(g.tip.Time)+30, 0))
 	cctx, write := ctx.CacheContext()
 	hdr := h
-	err := func() (err error) {
-		defer func() {
-			if r := recover(); r != nil {
-				err = fmt.Errorf("panic: %v", r)
-			}
+	var err error
+	if g.viaTx {
+		msg, merr := clienttypes.NewMsgUpdateClient(g.name, &hdr, c.SenderAccounts[0].SenderAccount.GetAddress())
+		if merr != nil {
+			err = merr
+		} else if r := w.Tx(c, 0, msg); r.Code != 0 {
+			err = fmt.Errorf("tx failed: %s/%d", r.Codespace, r.Code)
+		}
+		ctx = c.GetContext()
+		write = func() {}
+		expect = 0
+	} else {
+		err = func() (err error) {
+			defer func() {
+				if r := recover(); r != nil {
+					err = fmt.Errorf("panic: %v", r)
+				}
+			}()
+			return ck.UpdateClient(cctx, g.name, &hdr)
 		}()
-		return ck.UpdateClient(cctx, g.name, &hdr)
-	}()
+	}
 	res := "ok"
 	if err != nil {
 		res = "fail"
@@ -405,6 +432,10 @@ func (g *BscGen) validSpec(forceSigner int) (bscSpec, bool) {
 		default:
 			s.announce = g.randSet(1 + g.r.Intn(g.maxN()))
 		}
+		if g.viaTx && g.r.Chance(50) && len(s.announce) < 21 {
+			// an epoch header that names a validator twice (nothing forbids it)
+			s.announce = append(s.announce, s.announce[g.r.Intn(len(s.announce))])
+		}
 	}
 	return s, true
 }
@@ -429,20 +460,27 @@ func (g *BscGen) advance(s bscSpec, h bsctypes.Header) {
 		if n == g.switchAt {
 			g.prev, g.lastSwitch = g.cur, n
 			g.cur, g.pend = g.pend, nil
+			g.curLen = g.pendLen
 		}
 	}
 	if n%g.epoch == 0 {
-		g.pend = append([]int{}, s.announce...)
-		g.switchAt = n + uint64(len(g.cur)/2)
-		if len(g.cur)/2 == 0 {
+		g.pend = dedupSorted(s.announce)
+		g.pendLen = len(s.announce)
+		if g.curLen == 0 {
+			g.curLen = len(g.cur)
+		}
+		g.switchAt = n + uint64(g.curLen/2)
+		if g.curLen/2 == 0 {
 			g.prev, g.lastSwitch = g.cur, n
 			g.cur, g.pend = g.pend, nil
+			g.curLen = g.pendLen
 		}
 	}
 	g.tip = h
 }
 
-func (g *BscGen) Run(nBlocks int, caseIdx int) {
+// Init creates the client from a generated trusted epoch header
+func (g *BscGen) Init(caseIdx int) bool {
 	w := g.w
 	c := w.Chains[0]
 	ck := c.App.TIBCKeeper.ClientKeeper
@@ -472,6 +510,7 @@ func (g *BscGen) Run(nBlocks int, caseIdx int) {
 	g.signerOf[genesisNumber] = gs.signer
 	g.pend = append([]int{}, g.cur...)
 	g.switchAt = genesisNumber + uint64(len(g.cur)/2)
+	g.curLen, g.pendLen = len(g.cur), len(g.cur)
 	if len(g.cur)/2 == 0 {
 		g.pend = nil
 	}
@@ -498,15 +537,24 @@ func (g *BscGen) Run(nBlocks int, caseIdx int) {
 	ctx := c.GetContext().WithBlockTime(time.Unix(int64(genesis.Time)+30, 0))
 	if err := ck.CreateClient(ctx, g.name, cs, cons); err != nil {
 		w.hit("C17", "cannot-create-client "+err.Error())
-		return
+		return false
 	}
 	g.heights = []uint64{genesisNumber}
 	w.emit(fmt.Sprintf("bsc.create %s %d %s %s %s", g.name, g.epoch, g.token(genesis), intsStr(g.cur), undash(strings.Join(recStr, ","))), "res=ok | "+g.dump(c, ctx))
+	if g.viaTx {
+		ck.RegisterRelayers(ctx, g.name, []string{c.SenderAccounts[0].SenderAccount.GetAddress().String()})
+	}
+	return true
+}
 
-	for b := 0; b < nBlocks; b++ {
+// Step presents a batch of corrupted candidates for the next height and then the valid header;
+// false: the chain cannot be followed any further
+func (g *BscGen) Step(b int) bool {
+	c := g.w.Chains[0]
+	{
 		vs, ok := g.validSpec(-1)
 		if !ok {
-			break
+			return false
 		}
 		number := vs.number
 		set, elig, recent := g.eligible(number)
@@ -669,8 +717,20 @@ func (g *BscGen) Run(nBlocks int, caseIdx int) {
 		}
 		if !g.submit(c, h, +1, lbl) {
 			// the chain cannot be followed any further
-			break
+			return false
 		}
 		g.advance(vs, h)
+	}
+	return true
+}
+
+func (g *BscGen) Run(nBlocks int, caseIdx int) {
+	if !g.Init(caseIdx) {
+		return
+	}
+	for b := 0; b < nBlocks; b++ {
+		if !g.Step(b) {
+			break
+		}
 	}
 }
